@@ -81,6 +81,15 @@ func execCNF(env Env, t *world.TaskSpec, out *Outcome) {
 		out.Summary = "cnf:error"
 		return
 	}
+	// with the cutting-planes strategy on, a wrong answer is a C14 matter (same verdict as with it off = the truth)
+	prop := "C01"
+	if t.CP && !t.Cert {
+		prop = "C14"
+		env.Phase("cp")
+		defer env.Phase("")
+		mark := len(out.Viol)
+		defer func() { markCP(out, mark) }()
+	}
 	nTruth := wantN
 	soak := nTruth > 90 // beyond the reference solvers: judged by model and certificate only
 	truth := false
@@ -94,12 +103,12 @@ func execCNF(env Env, t *world.TaskSpec, out *Outcome) {
 	} else if pb.Status == solver.Unsat {
 		out.probe("parse-time-unsat")
 		if truth {
-			out.fail("C01", "parse-status", "Problem.Status is Unsat after parsing but the formula is satisfiable: %v", t.Clauses)
+			out.fail(prop, "parse-status", "Problem.Status is Unsat after parsing but the formula is satisfiable: %v", t.Clauses)
 		}
 	} else if pb.Status == solver.Sat {
 		out.probe("parse-time-sat")
 		if !truth {
-			out.fail("C01", "parse-status", "Problem.Status is Sat after parsing but the formula is unsatisfiable: %v", t.Clauses)
+			out.fail(prop, "parse-status", "Problem.Status is Sat after parsing but the formula is unsatisfiable: %v", t.Clauses)
 		}
 	}
 	s := solver.New(pb)
@@ -139,26 +148,26 @@ func execCNF(env Env, t *world.TaskSpec, out *Outcome) {
 	switch status {
 	case solver.Sat:
 		if !truth && !soak {
-			out.fail("C01", "verdict", "answered Sat, formula is unsatisfiable: n=%d clauses=%v", wantN, t.Clauses)
+			out.fail(prop, "verdict", "answered Sat, formula is unsatisfiable: n=%d clauses=%v", wantN, t.Clauses)
 			return
 		}
 		m := s.Model()
 		if len(m) != wantN {
-			out.fail("C01", "model-length", "model has %d entries, %d variables declared", len(m), wantN)
+			out.fail(prop, "model-length", "model has %d entries, %d variables declared", len(m), wantN)
 		}
 		if i := ref.CNFSatBy(t.Clauses, m); i >= 0 {
-			out.fail("C01", "model-invalid", "model %v falsifies clause %d %v of the input", m, i, t.Clauses[i])
+			out.fail(prop, "model-invalid", "model %v falsifies clause %d %v of the input", m, i, t.Clauses[i])
 		}
 	case solver.Unsat:
 		if truth && !soak {
-			out.fail("C01", "verdict", "answered Unsat, formula is satisfiable: n=%d clauses=%v", wantN, t.Clauses)
+			out.fail(prop, "verdict", "answered Unsat, formula is satisfiable: n=%d clauses=%v", wantN, t.Clauses)
 			return
 		}
 		if soak && !t.Cert {
 			out.probe("soak-unsat-not-judged")
 		}
 	default:
-		out.fail("C01", "indet", "Solve returned %s", statusStr(status))
+		out.fail(prop, "indet", "Solve returned %s", statusStr(status))
 		return
 	}
 	if t.Cert {
